@@ -113,7 +113,8 @@ def run_check(prop: str, tier: str, seed: int) -> int:
                 else:
                     exhausted_sys = True
             if exhausted_sys and not jobs:
-                if run >= max_runs or time.monotonic() - t0 > budget:
+                min_runs = getattr(mod, "MIN_RUNS", {}).get(tier, 0)
+                if run >= max_runs or (time.monotonic() - t0 > budget and run >= min_runs):
                     break
                 n = min(batch, max_runs - run)
                 jobs = [mod.generate(seed, run + k, tier) for k in range(n)]
